@@ -392,15 +392,21 @@ def rule_mx7(ctx: Ctx) -> RuleResult:
                 r.ob(not other, lambda: mk_finding("MX-7", spec, kind, cfg, p, "unexpected emission while handling %s: %s" % (kind, summary(p)), extra="other"))
                 if fw:
                     # the forwarding path must be guarded by branch == <the one branch>
-                    guards = [d for d in decs if d.outcome is True and d.test[0] == "cmp" and d.test[1] == "Eq"]
+                    guards = [d for d in decs if d.test[0] == "cmp" and d.test[1] in ("Eq", "NotEq") and d.outcome == (d.test[1] == "Eq")]
                     good = False
                     for d in guards:
-                        a, b = d.test[2], d.test[3]
-                        other_side = b if a == branch else a
+                        # the equality solved for the branch index:  i == n - 1,  i + 1 == n,  n == i + 1 ...
+                        from .linear import diff
+                        f = diff(d.test[2], d.test[3])
+                        if f is None or branch not in f[0] or abs(f[0][branch]) != 1:
+                            continue
+                        sgn = -f[0][branch]
+                        rest = {k: v * sgn for k, v in f[0].items() if k != branch}
+                        cst = f[1] * sgn
                         if kind == "Create":
-                            good = good or other_side == ("const", 0)
+                            good = good or (not rest and cst == 0)
                         else:
-                            good = good or last_branch(other_side)
+                            good = good or (cst == -1 and len(rest) == 1 and list(rest.values()) == [1] and tm.is_count(list(rest)[0]))
                     want = "the first branch (index 0)" if kind == "Create" else "the last branch (index n-1, n = len(sources))"
                     r.ob(good and len(fw) == 1, lambda: mk_finding(
                         "MX-7", spec, kind, cfg, p,
@@ -408,7 +414,7 @@ def rule_mx7(ctx: Ctx) -> RuleResult:
                             kind, want), fw[0].eff.node, extra="guard"))
                 else:
                     # a silent path must be the negation of such a guard
-                    neg = [d for d in decs if d.outcome is False and d.test[0] == "cmp" and d.test[1] == "Eq"]
+                    neg = [d for d in decs if d.test[0] == "cmp" and d.test[1] in ("Eq", "NotEq") and d.outcome != (d.test[1] == "Eq")]
                     r.ob(bool(neg), lambda: mk_finding("MX-7", spec, kind, cfg, p,
                                                        "%s of a key is dropped on a path not selected by the branch index" % kind, extra="drop"))
             elif kind == "Next":
